@@ -48,6 +48,10 @@ static int _iteratorVarargNext(struct iteratorVararg *va)
 			return get;
 		}
 	}
+	/* a native long is delivered as the integer type of its size (the format code is no value type) */
+	if (type == 'l') {
+		type = mpt_type_int(sizeof(long));
+	}
 	MPT_value_set(&va->val, type, va->_buf);
 	++va->fmt;
 	return type;
